@@ -448,11 +448,7 @@ impl TransactionBuilder {
 
             //just add first input, to cover needs of one input
             let input = available_inputs.pop().unwrap();
-            let input_fee = self.fee_for_input(
-                &input.output.address,
-                &input.input,
-                &input.output.amount,
-            )?;
+            let input_fee = self.fee_for_utxo(&input)?;
             self.inputs.add_regular_utxo(&input)?;
             input_total = input_total.checked_add(&input.output.amount)?;
             output_total = output_total.checked_add(&Value::new(&input_fee))?;
@@ -511,11 +507,7 @@ impl TransactionBuilder {
                         .unwrap();
                     available_indices.remove(&i);
                     let input = &available_inputs[i];
-                    let input_fee = self.fee_for_input(
-                        &input.output.address,
-                        &input.input,
-                        &input.output.amount,
-                    )?;
+                    let input_fee = self.fee_for_utxo(&input)?;
                     self.inputs.add_regular_utxo(&input)?;
                     input_total = input_total.checked_add(&input.output.amount)?;
                     output_total = output_total.checked_add(&Value::new(&input_fee))?;
@@ -586,11 +578,7 @@ impl TransactionBuilder {
                                 let i = candidates[rng.gen_range(0..candidates.len())];
                                 available_indices.remove(&i);
                                 let input = &available_inputs[i];
-                                let input_fee = self.fee_for_input(
-                                    &input.output.address,
-                                    &input.input,
-                                    &input.output.amount,
-                                )?;
+                                let input_fee = self.fee_for_utxo(&input)?;
                                 self.inputs.add_regular_utxo(&input)?;
                                 input_total = input_total.checked_add(&input.output.amount)?;
                                 output_total = output_total.checked_add(&Value::new(&input_fee))?;
@@ -621,11 +609,7 @@ impl TransactionBuilder {
                         .unwrap();
                     available_indices.remove(&i);
                     let input = &available_inputs[i];
-                    let input_fee = self.fee_for_input(
-                        &input.output.address,
-                        &input.input,
-                        &input.output.amount,
-                    )?;
+                    let input_fee = self.fee_for_utxo(&input)?;
                     self.inputs.add_regular_utxo(&input)?;
                     input_total = input_total.checked_add(&input.output.amount)?;
                     output_total = output_total.checked_add(&Value::new(&input_fee))?;
@@ -663,7 +647,7 @@ impl TransactionBuilder {
             let input = &available_inputs[*i];
             // differing from CIP2, we include the needed fees in the targets instead of just output values
             let input_fee =
-                self.fee_for_input(&input.output.address, &input.input, &input.output.amount)?;
+                self.fee_for_utxo(&input)?;
             self.inputs.add_regular_utxo(&input)?;
             *input_total = input_total.checked_add(&input.output.amount)?;
             *output_total = output_total.checked_add(&Value::new(&input_fee))?;
@@ -781,11 +765,7 @@ impl TransactionBuilder {
             if let Some(associated) = associated_indices.get(&output_index) {
                 for i in associated.iter() {
                     let input = &available_inputs[*i];
-                    let input_fee = self.fee_for_input(
-                        &input.output.address,
-                        &input.input,
-                        &input.output.amount,
-                    )?;
+                    let input_fee = self.fee_for_utxo(&input)?;
                     self.inputs.add_regular_utxo(&input)?;
                     *input_total = input_total.checked_add(&input.output.amount)?;
                     *output_total = output_total.checked_add(&Value::new(&input_fee))?;
@@ -1147,6 +1127,22 @@ impl TransactionBuilder {
         let aligned_fee_before = self.fee_request.get_new_fee(fee_before);
 
         self_copy.add_regular_input(&address, &input, &amount)?;
+        let fee_after = min_fee(&self_copy)?;
+        let aligned_fee_after = self.fee_request.get_new_fee(fee_after);
+
+        aligned_fee_after.checked_sub(&aligned_fee_before)
+    }
+
+    /// `fee_for_input` for a UTxO offered to coin selection: added the way selection adds it, so that a
+    /// reference script the UTxO carries is charged for
+    fn fee_for_utxo(&self, utxo: &TransactionUnspentOutput) -> Result<Coin, JsError> {
+        let mut self_copy = self.clone();
+        self_copy.set_final_fee((0x1_00_00_00_00u64).into());
+
+        let fee_before = min_fee(&self_copy)?;
+        let aligned_fee_before = self.fee_request.get_new_fee(fee_before);
+
+        self_copy.inputs.add_regular_utxo(utxo)?;
         let fee_after = min_fee(&self_copy)?;
         let aligned_fee_after = self.fee_request.get_new_fee(fee_after);
 
